@@ -12,6 +12,8 @@
 (*   [k |-> "dimas", b, c, t, shared]  DIM [SHARED] name AS type                *)
 (*   [k |-> "dimsfx", b, c, sfx, shared] DIM [SHARED] name<sfx>                 *)
 (*   [k |-> "const", b, c, sfx, id]                                             *)
+(*   [k |-> "def", t, lo, hi]          a DEFtype statement in the middle of main:   *)
+(*                                     it governs the names that FOLLOW it          *)
 (*                                                                           *)
 (* The oracle is three-valued: accept (with the printed output), reject (the   *)
 (* checker must refuse the program) or unspec (the documents leave it open).   *)
@@ -115,9 +117,15 @@ Stmt(st, sc, s) ==
     [] s.k = "const" ->
          IF s.b \in DOMAIN d.cst \/ s.b \in DOMAIN d.ext \/ UsedAny(d, s.b) THEN Unspec(st)
          ELSE IF sc = "sub" /\ (s.b \in st.sharedext \/ \E t \in Types : <<s.b, t>> \in st.shared) THEN Unspec(st)
+         ELSE IF "ref" \in DOMAIN s /\ s.ref # "" THEN
+              \* CONST b = <another constant>: the name on the right is resolved like any use in this scope
+              LET r == Resolve(st, sc, s.ref, s.refc, "") IN
+              IF r.r # "const" THEN Unspec(st)
+              ELSE SetLoc(st, sc, [d EXCEPT !.cst = @ @@ (s.b :> [t |-> IF r.v.num THEN "I" ELSE "$", v |-> r.v])])
          ELSE LET ty == IF s.sfx = "" THEN "I" ELSE s.sfx IN     \* the constant is a small whole number or a string
               SetLoc(st, sc, [d EXCEPT !.cst = @ @@ (s.b :> [t |-> ty, v |-> ValueFor(ty, s.id)])])
     [] s.k = "call" -> st      \* handled by Run
+    [] s.k = "def" -> [st EXCEPT !.defs = Append(@, [t |-> s.t, lo |-> s.lo, hi |-> s.hi])]
     [] s.k = "printlit" -> [st EXCEPT !.out = @ \o s.text \o <<13, 10>>]
 
 RECURSIVE Pass(_, _, _, _)
@@ -145,9 +153,10 @@ RunProg(p) ==
            \* the declarations of the rest of main are not yet in force while the SUB runs, except that
            \* DIM SHARED / CONST are static: take the static tables of the whole main module
            full == Pass(Start(p), "main", p.main, 1)
+           \* the SUB stands after the whole main module: every DEFtype of main governs its names
            b == Pass([a EXCEPT !.g.cst = full.g.cst, !.g.ext = full.g.ext, !.shared = full.shared,
-                                !.sharedext = full.sharedext, !.l = NewScope], "sub", p.sub, 1)
-       IN Pass([b EXCEPT !.g = a.g, !.shared = a.shared, !.sharedext = a.sharedext], "main",
+                                !.sharedext = full.sharedext, !.l = NewScope, !.defs = full.defs], "sub", p.sub, 1)
+       IN Pass([b EXCEPT !.g = a.g, !.shared = a.shared, !.sharedext = a.sharedext, !.defs = a.defs], "main",
                SubSeq(p.main, ci + 1, Len(p.main)), 1)
 
 Oracle(p) ==
